@@ -378,23 +378,27 @@ func init() {
 
 const unixToInternal = (1969*365 + 1969/4 - 1969/100 + 1969/400) * 86400
 
-// time.Time{wall uint64, ext int64, loc *Location}; model instants carry no monotonic reading.
+// time.Time{wall uint64, ext int64, loc *Location}. Model instants CARRY A MONOTONIC READING (as real time.Now() values
+// do): wall = hasMonotonic | sec33<<30 | nsec30 with unconstrained wall-clock parts, ext = monotonic nanoseconds.
+// Sub/Since/Before/After/Equal between two such instants then are - in the real stdlib code - plain 64-bit
+// subtraction/comparison of the monotonic readings, so no multiplication by 10^9 ever reaches the solver.
+// Readings are non-decreasing and lie in [0, 2^61) ns (73 years of uptime).
 func (e *Engine) timeNow(st *State, t types.Type) Value {
 	tv := zero(t).(*StructV)
-	sec := st.fresh("now.sec", BV(64))
-	nsec := st.fresh("now.nsec", BV(64))
-	// clock window: 2020-01-01 .. +2^31 s, non-decreasing
-	lo := ConstU(uint64(unixToInternal+1577836800), 64)
-	st.assume(BVUge(sec, lo))
-	st.assume(BVUlt(sec, BVAdd(lo, ConstU(1<<31, 64))))
-	st.assume(BVUlt(nsec, ConstU(1000000000, 64)))
+	mono := st.fresh("now.mono", BV(64))
+	wsec := st.fresh("now.wallsec", BV(33))
+	wns := st.fresh("now.wallnsec", BV(30))
+	st.assume(BVUlt(mono, ConstU(1<<61, 64)))
+	st.assume(BVUlt(wns, ConstU(1000000000, 30)))
+	// wall clock between 2020 and 2088 (seconds since 1885)
+	st.assume(BVUge(wsec, ConstU(4260211200, 33)))
+	st.assume(BVUlt(wsec, ConstU(4260211200+(1<<31), 33)))
 	if last, ok := st.lastNow(); ok {
-		ls, ln := last[0], last[1]
-		st.assume(Or(BVUgt(sec, ls), And(Eq(sec, ls), BVUge(nsec, ln))))
+		st.assume(BVUge(mono, last[0]))
 	}
-	st.setLastNow(sec, nsec)
-	tv.F[0] = nsec
-	tv.F[1] = sec
+	st.setLastNow(mono, wsec)
+	tv.F[0] = Concat(ConstU(1, 1), Concat(wsec, wns))
+	tv.F[1] = mono
 	return tv
 }
 
@@ -425,6 +429,20 @@ func timeParts(t *StructV) (sec, nsec *Term) {
 
 // exact t.Sub(u) with saturation, computed in 128 bits (see DESIGN §4.3)
 func timeSub(t, u *StructV) Value {
+	tw, uw := t.F[0].(*Term), u.F[0].(*Term)
+	tm, um := Extract(63, 63, tw), Extract(63, 63, uw)
+	if tm.IsConst() && um.IsConst() && tm.Uint64() == 1 && um.Uint64() == 1 {
+		// both carry monotonic readings: stdlib subMono (saturating 64-bit subtraction)
+		a, b := t.F[1].(*Term), u.F[1].(*Term)
+		d := BVSub(a, b)
+		maxD := ConstU(1<<63-1, 64)
+		minD := ConstBV(new(big.Int).Neg(new(big.Int).Lsh(big.NewInt(1), 63)), 64)
+		return Ite(And(BVSlt(d, ConstU(0, 64)), BVSgt(a, b)), maxD, Ite(And(BVSgt(d, ConstU(0, 64)), BVSlt(a, b)), minD, d))
+	}
+	if tm.IsConst() && tm.Uint64() == 1 && uw.IsConst() && u.F[1].(*Term).IsConst() && u.F[1].(*Term).Int64() < 56802297600 {
+		// model instant (wall clock >= 2020) minus a concrete instant before year 1800 (the zero Time): > 292 years, saturates
+		return ConstU(1<<63-1, 64)
+	}
 	ts, tn := timeParts(t)
 	us, un := timeParts(u)
 	ds := SignExt(BVSub(ts, us), 128) // |Δsec| < 2^63 assumed representable (both are int64 seconds)
